@@ -23,6 +23,7 @@ const (
 	SiteCleanupDelete
 	SiteFlushSwap
 	SiteFlushAdd
+	SiteInsertRelinkedMarked
 
 	SiteSkiplistMax
 )
